@@ -61,15 +61,16 @@ def _replay_chunk(args):
     nact = 0
     worst = 0.0
     nill = 0
-    for (n, m, rec) in jobs:
+    for ji, (n, m, rec) in enumerate(jobs):
         npt = rec["npt"]
+        sc = 2.0 ** -30 if (ji % 3 == 2) else 1.0     # a third of the behaviours at a tiny length scale
         fobj, fcons = _funs(n, m)
         # constraint kinds alternate: inequality / equality models
         nlc = [NonlinearConstraint(fc, (-np.inf if i % 2 == 0 else 0.25), 0.25) for i, fc in enumerate(fcons)]
-        pb = Problem(ObjectiveFunction(fobj, False, False), np.full(n, 0.125),
+        pb = Problem(ObjectiveFunction(fobj, False, False), np.full(n, 0.125 * sc),
                      BoundConstraints(Bounds([-np.inf] * n, [np.inf] * n)), LinearConstraints([], n, False),
                      NonlinearConstraints(nlc, False, False), None, 1e-8, False, False, 1, sys.maxsize, False)
-        options = {"nb_points": npt, "radius_init": 0.5}
+        options = {"nb_points": npt, "radius_init": 0.5 * sc, "radius_final": min(1e-6, 0.5 * sc)}
         _set_default_options(options, n)
         models = Models(pb, options, 0.0)
         rng = np.random.RandomState(1234 + n)
@@ -78,7 +79,7 @@ def _replay_chunk(args):
         coords = {k + 1: models.interpolation.point(k).copy() for k in range(npt)}
         vals = {k + 1: (float(models.fun_val[k]), models.cub_val[k].copy(), models.ceq_val[k].copy()) for k in range(npt)}
         pt = list(range(1, npt + 1))
-        where = {"n": n, "m": m, "npt": npt}
+        where = {"n": n, "m": m, "npt": npt, "scale": sc}
 
         condmax = [1.0]
 
@@ -122,10 +123,10 @@ def _replay_chunk(args):
                 if h["a"] in ("replace", "near"):
                     if h["a"] == "replace":
                         rad = (0.25, 0.5, 1.0)[h["d"] % 3]
-                        x_new = coords[h["from"]] + rad * dirs[h["d"] - 1]
+                        x_new = coords[h["from"]] + rad * sc * dirs[h["d"] - 1]
                     else:
                         x_new = coords[h["from"]].copy()
-                        x_new[0] += 1e-9
+                        x_new[0] += 1e-9 * sc
                     fv, cu, ce = pb(x_new, 0.0)
                     coords[h["id"]] = x_new.copy()
                     vals[h["id"]] = (float(fv), np.array(cu, float), np.array(ce, float))
@@ -174,7 +175,7 @@ def replay(tier, verdict):
             worst = max(worst, w)
             nill += ni
             for cl, det in bad:
-                verdict.add(cl, json.dumps({kk: det[kk] for kk in ("n", "m", "npt", "hist")}), det)
+                verdict.add(cl, json.dumps({kk: det[kk] for kk in ("n", "m", "npt", "scale", "hist")}), det)
     return {"behaviours_replayed": nb, "actions_replayed": nact, "simulation_states": states,
             "largest_residual_over_tolerance": round(worst, 6), "ill_conditioned_states_checked": nill,
             "samples": [{"n": jobs[0][0], "constraint_models": jobs[0][1], "history": jobs[0][2]["hist"][:5]}]}
